@@ -321,8 +321,9 @@ def judge(res, specs, logs, verdicts):
                 res.reject({"kind": s["kind"], "order": s["k"], "clauses": ["census_call_raised"]},
                            "%s census of order %d raised %s on %s" % (s["kind"], s["k"], l["err"][7:], describe(s, i)),
                            {"spec": s, "variant": i, "error": l["err"]})
-            elif l["err"]:
-                raise tlc.TLCError("C11 harness could not build/log a hypergraph (%s): %s" % (l["err"], describe(s, i)))
+            elif l["err"]:              # the container failed while the input was built: no census, no verdict here
+                info["variants_skipped_container_error"] = info.get("variants_skipped_container_error", 0) + 1
+                info.setdefault("container_errors", []).append(l["err"][:120])
             elif l["malformed"]:
                 res.reject({"kind": s["kind"], "order": s["k"], "clauses": ["observed_is_list_of_pattern_count_pairs"]},
                            "'observed' is not a list of (pattern, integer count): %s on %s" % (l["malformed"], describe(s, i)),
@@ -362,7 +363,7 @@ def nonzero(obs):
     return [p for p in (obs or []) if p[1] != 0]
 
 
-def validate(specs, logs, procs=12):
+def validate(specs, logs, procs=10):
     """send every fully logged case to TLC (one TLC constant Kind per kind)"""
     verdicts = {}
     threads = []
@@ -415,6 +416,9 @@ def run(tier, seed):
         raise box["err"]
     verdicts = validate(specs, logs)
     info = judge(res, specs, logs, verdicts)
+    skipped = info.get("variants_skipped_container_error", 0)
+    if skipped > 0.05 * sum(len(s["variants"]) for s in specs):
+        raise tlc.TLCError("C11 harness could not build %d inputs (container errors, e.g. %s)" % (skipped, info["container_errors"][:3]))
 
     nvar = sum(len(s["variants"]) for s in specs)
     res.cov(traces_validated_against_impl=sum(len(v[0]) for v in verdicts.values()),
@@ -424,6 +428,7 @@ def run(tier, seed):
             directed_cases=sum(1 for s in specs if s["kind"] == "dir"),
             distinct_hypergraphs=len({(s["kind"], s["n"], tuple(s["edges"])) for s in specs}),
             directed_variants_off_the_anchor_enumeration=info.get("info_dir_anchor_enumeration", 0),
+            variants_skipped_container_error=skipped,
             exhaustive=(tier == "thorough"))
     res.coverage["variants_by_tag"] = {}
     for s in specs:
